@@ -685,6 +685,12 @@ def j1(cx):
     vals = {norm(x.value) for x in stores}
     cx.check(any(v.endswith(".to_dict()") for v in vals | {norm(d.value) for d in ast.walk(lp) if isinstance(d, ast.Assign)}) and any(v.endswith("._to_dict()") for v in vals | {norm(d.value) for d in ast.walk(lp) if isinstance(d, ast.Assign)}), lp,
              construct="nested hybrid -> to_dict(), nested struct -> _to_dict()", detail="compound values are serialised recursively", bad_detail="nested values are not serialised recursively", sub="nested")
+
+
+@rule("J2", ["C19"], "the defaults the elision compares against have a single source shared with the constructor; from_dict forwards the dictionary unchanged")
+def j2(cx):
+    m = cx.m
+    f = m.func(f"{HC}.to_dict")
     # J2 single source of defaults
     dl = [s for s in own_nodes(f) if isinstance(s, ast.Assign) and isinstance(s.targets[0], ast.Subscript) and norm(s.targets[0].value) == "defaults"]
     cx.check(len(dl) == 1 and norm(dl[0].value) == "field.get_default()", dl[0] if dl else f, construct="defaults[...] = field.get_default()", detail="elision compares against Field.get_default()", bad_detail="elision default is not Field.get_default()", sub="J2")
